@@ -1569,7 +1569,12 @@ class ColangParser:
         self.branches.append(
             {
                 "elements": self.ifs[-1]["element"]["else"],
-                "indentation": self.ifs[-1]["indentation"],
+                # The else body can be indented differently than the then body
+                "indentation": (
+                    self.next_line["indentation"]
+                    if self.next_line is not None
+                    else self.ifs[-1]["indentation"]
+                ),
             }
         )
 
